@@ -1,6 +1,7 @@
 package main
 
 import (
+	"github.com/spf13/afero"
 	"time"
 	"archive/tar"
 	"bytes"
@@ -69,9 +70,14 @@ func seqCases(prop, tier string, seed uint64) []Case {
 			n, steps = 4000, 30
 		}
 	case "C04":
-		n, steps = 1200, 20
+		n, steps = 800, 20
 		if tier == "thorough" {
 			n, steps = 15000, 40
+		}
+	case "C13", "C05", "C12":
+		// the per-call monitors of these three walk rows, handles or the whole tape after every call: fewer quick histories keep the quick tier near a minute
+		if tier != "thorough" {
+			n = 800
 		}
 	}
 	cfgs := someCfgs(r, ncfg)
@@ -146,6 +152,7 @@ type hist struct {
 	ops    []Op
 	outs   []Outcome
 	step   int
+	held   map[string]afero.File // C13: directory handles kept open across calls
 }
 
 func (h *hist) violate(sig, format string, a ...any) {
@@ -341,6 +348,66 @@ func (h *hist) c13Check(op Op) bool {
 		}
 	}
 	f := h.rig.FS
+	// directory handles that were opened before earlier calls list what is there NOW (a handle on a directory that the call
+	// removed or moved is dropped: what it lists then is not specified)
+	if h.held == nil {
+		h.held = map[string]afero.File{}
+	}
+	touched := func(p string) bool {
+		switch op.K {
+		case "remove", "removeall", "rename", "opmove", "opdelete", "latewrite":
+			for _, x := range []string{op.A, op.B} {
+				if x != "" && (p == x || strings.HasPrefix(p, x+"/")) {
+					return true
+				}
+			}
+		}
+		e, ok := h.tree[p]
+		return !ok || e.Kind != "d"
+	}
+	var heldPaths []string
+	for p := range h.held {
+		heldPaths = append(heldPaths, p)
+	}
+	sort.Strings(heldPaths)
+	for _, p := range heldPaths {
+		dh := h.held[p]
+		if touched(p) {
+			_ = dh.Close()
+			delete(h.held, p)
+			continue
+		}
+		var want []string
+		for q := range h.tree {
+			if q != "/" && path.Dir(q) == p {
+				want = append(want, path.Base(q))
+			}
+		}
+		sort.Strings(want)
+		got, err := dh.Readdirnames(-1)
+		if err != nil {
+			h.violate("held-handle|error", "Readdirnames(-1) on a handle of %q that was opened before this call: %v", p, err)
+			return false
+		}
+		sort.Strings(got)
+		if strings.Join(got, "\x00") != strings.Join(want, "\x00") {
+			h.violate("held-handle|stale", "a handle of %q opened before this call lists %q, the directory holds %q", p, shortList(got, 8), shortList(want, 8))
+			return false
+		}
+		h.res.count("listings_through_held_handles", 1)
+	}
+	for _, d := range dirsOf(h.tree) {
+		if len(h.held) >= 3 {
+			break
+		}
+		if _, ok := h.held[d]; ok || (h.step+len(d))%3 != 0 {
+			continue
+		}
+		if dh, err := f.Open(d); err == nil {
+			_, _ = dh.Readdirnames(-1)
+			h.held[d] = dh
+		}
+	}
 	for _, d := range dirsOf(h.tree) {
 		var want []string
 		for p := range h.tree {
@@ -661,6 +728,8 @@ func (h *hist) c12Check(op Op, out Outcome, before Tree) bool {
 func genOptsFor(prop string, cfg Cfg, comps []string) GenOpts {
 	o := GenOpts{Cfg: cfg, Comps: comps}
 	switch prop {
+	case "C02":
+		o.Late = true
 	case "C01":
 		o.Batched = true // symlinks: only in the witness case of the open finding (they vanish from listings after a rebuild)
 	case "C04", "C05":
